@@ -2,8 +2,8 @@
    Only statements, each closed by [exact] of a lemma proved in Proofs/.
    [safe r] is [r <> Panic /\ r <> Fuel] (Base/Prelude.v). *)
 From PV Require Import Base.Prelude Base.Slice.
-From PV Require Import Model.NDPOptions Model.MiscHopByHop.
-From PV Require Import Proofs.NDPOptions Proofs.MiscHopByHop.
+From PV Require Import Model.NDPOptions Model.MiscHopByHop Model.HandlersLoop Model.HandlersDnsMsg.
+From PV Require Import Proofs.NDPOptions Proofs.MiscHopByHop Proofs.HandlersDnsMsg.
 Open Scope N_scope.
 
 (* ---------------------------------------------------------------- *)
@@ -91,3 +91,80 @@ Example C08_hopbyhop_nonvacuous :
   wf p /\ hbh_is_valid p = true /\ known_C08_hbh_short p = false /\ hbh_parse 10 p = Ok tt.
 Proof. exact hbh_nonvacuous. Qed.
 Print Assumptions C08_hopbyhop_nonvacuous.
+
+(* ---------------------------------------------------------------- *)
+(* ProcessMDNS (handlers/dns_naming/mdns.go:314) over the abstract dnsmessage.Parser state
+   machine: quantified over ALL structured messages (any counts, any record stream). *)
+
+(* full statement refuted (DESIGN section 11 #20): a record the loop hands to p.SkipAnswer()
+   while the parser is in the authority/additional section is never consumed *)
+Theorem C08_mdns_outside_answers_refuted :
+  known_C08_mdns mdns_w_authority = MOutsideAnswers /\
+  forall fuel, process_mdns fuel mdns_w_authority = Fuel.
+Proof. exact mdns_refuted_authority. Qed.
+Print Assumptions C08_mdns_outside_answers_refuted.
+
+(* second class, inside the answer section: the error of SkipAnswer (RDLENGTH beyond the
+   message) is ignored and the same record is parsed again *)
+Theorem C08_mdns_skip_error_refuted :
+  known_C08_mdns mdns_w_answer_nofit = MSkipFailed /\
+  forall fuel, process_mdns fuel mdns_w_answer_nofit = Fuel.
+Proof. exact mdns_refuted_answer_nofit. Qed.
+Print Assumptions C08_mdns_skip_error_refuted.
+
+Theorem C08_mdns_partial : forall m, known_C08_mdns m = MNone ->
+  forall fuel, (2 * length (m_recs m) + 8 <= fuel)%nat ->
+  process_mdns fuel m <> Panic /\ process_mdns fuel m <> Fuel.
+Proof. exact process_mdns_partial. Qed.
+Print Assumptions C08_mdns_partial.
+
+(* the class is exact: every message in it spins for ever (and never panics) *)
+Theorem C08_mdns_known_exact : forall m, known_C08_mdns m <> MNone ->
+  forall fuel, process_mdns fuel m = Fuel.
+Proof. exact process_mdns_known_spins. Qed.
+Print Assumptions C08_mdns_known_exact.
+
+Example C08_mdns_nonvacuous :
+  known_C08_mdns mdns_w_good = MNone /\ process_mdns 16 mdns_w_good = Ok tt.
+Proof. exact mdns_nonvacuous. Qed.
+Print Assumptions C08_mdns_nonvacuous.
+
+(* ---------------------------------------------------------------- *)
+(* ProcessNBNS (nbns.go:223) + parseNodeNameArray (nbns.go:172, byte level) *)
+
+Theorem C08_nbns_name_answer_refuted : forall fuel, process_nbns fuel true nbns_w_name_answer = Fuel.
+Proof. exact nbns_refuted_name_answer. Qed.
+Print Assumptions C08_nbns_name_answer_refuted.
+
+Theorem C08_nbns_unknown_answer_refuted : forall fuel, process_nbns fuel true nbns_w_unknown_answer = Fuel.
+Proof. exact nbns_refuted_unknown_answer. Qed.
+Print Assumptions C08_nbns_unknown_answer_refuted.
+
+Theorem C08_nbns_array_refuted :
+  bytes_ok nbns_array_w /\ known_C08_nbns_array (of_bytes nbns_array_w) = true /\
+  node_status_response (of_bytes nbns_array_w) = Panic /\
+  known_C08_nbns true nbns_w_array = NArray /\ process_nbns 10 true nbns_w_array = Panic.
+Proof. exact nbns_refuted_array. Qed.
+Print Assumptions C08_nbns_array_refuted.
+
+(* the node status decoder alone, byte level, with capacity *)
+Theorem C08_nbns_array_partial : forall b, wf b -> known_C08_nbns_array b = false ->
+  node_status_response b <> Panic /\ node_status_response b <> Fuel.
+Proof. exact node_status_safe. Qed.
+Print Assumptions C08_nbns_array_partial.
+
+Theorem C08_nbns_array_known_exact : forall b, wf b -> known_C08_nbns_array b = true ->
+  node_status_response b = Panic.
+Proof. exact node_status_panic. Qed.
+Print Assumptions C08_nbns_array_known_exact.
+
+Theorem C08_nbns_partial : forall m valid, known_C08_nbns valid m = NNone ->
+  forall fuel, (2 * length (m_recs m) + 4 <= fuel)%nat ->
+  process_nbns fuel valid m <> Panic /\ process_nbns fuel valid m <> Fuel.
+Proof. exact process_nbns_partial. Qed.
+Print Assumptions C08_nbns_partial.
+
+Example C08_nbns_nonvacuous :
+  known_C08_nbns true nbns_w_good = NNone /\ process_nbns 10 true nbns_w_good = Ok tt.
+Proof. exact nbns_nonvacuous. Qed.
+Print Assumptions C08_nbns_nonvacuous.
